@@ -336,4 +336,5 @@ def run(cx):
     # (keyword replacement) rewrites it, i.e. the fixed stage order (C10.R1)
     from . import c08, c10
     cx.borrow(c08.r6_global_substitution, "C08.R6", "C09.R5", "every occurrence of a recognised original on a line is replaced (C08.R6), in the fixed stage order (C10.R1)")
+    cx.borrow(c08.r7_stage_failure_propagates, "C08.R7", "C09.R5", "every occurrence of a recognised original on a line is replaced (C08.R6), in the fixed stage order (C10.R1)")
     cx.borrow(c10.r1_hash_free, "C10.R1", "C09.R5", "every occurrence of a recognised original on a line is replaced (C08.R6), in the fixed stage order (C10.R1)")
